@@ -4,12 +4,16 @@ import P2sh.Spec.Rfc
 # C18 — MAC, IPv4 and IPv6 address text
 
 * `mac_roundtrip`, `v4_roundtrip`, `v6_roundtrip` — for every address, the text `Display` prints parses back to it.
-* `mac_rejects_bad_count`, `v4_rejects_bad_count`, `v6_rejects_too_many`, `v6_rejects_bad_count_plain` — wrong number of
-  groups; `mac_rejects_bad_group`, `v4_rejects_bad_group`, `v6_rejects_bad_group`, `checkDigits_out_of_range` — a group that is
-  not a number of the type's range.
-* `v6_leading_compression_rejected_witness`, `v6_trailing_compression_rejected_witness` — `::1`, `1::`, `::` are standard
-  (RFC 4291 §2.2 form 2) and refused today; `v6_wrong_count_accepted_witness` — a single colon at an end, and the empty
-  text, are read as a compression although the reference counts the groups wrong.
+* `v6_accepts_all` — RFC 4291 §2.2 form 2: any groups before and after one `::` (at most seven in all, so also none
+  before — a leading `::` — and none after — a trailing `::`), each written with any digits `u16::from_str_radix`
+  accepts (1–4 hexadecimal digits of either case in particular), parse to those groups with the zero groups in between.
+* `mac_rejects_bad_count`, `v4_rejects_bad_count`, `v6_rejects_bad_count_plain`, `v6_rejects_too_many` — wrong number of
+  groups; `mac_rejects_bad_group`, `v4_rejects_bad_group`, `v6_rejects_bad_group`, `v6_rejects_bad_group_compressed`,
+  `checkDigits_out_of_range` — a group that is not a number of the type's range (an empty group — a lone colon at an end,
+  a second `::` — included).
+
+History: before /repo commit d061929 the IPv6 parser split on `:` and counted empty segments: `::1`, `1::` and `::` were
+refused, `:1:2:3:4:5:6:7` and the empty text accepted; `v6_accepts_all` was open and three witnesses recorded this.
 -/
 open P2sh P2sh.Proto P2sh.Spec
 namespace P2sh.Props.C18
@@ -142,22 +146,193 @@ theorem v4_roundtrip (a : List Nat) (hlen : a.length = 4) (hb : ∀ b ∈ a, b <
   simp only [parseV4, showV4, hsplit, List.length_map, hlen]
   simpa using parseAll_map 10 255 dec8 a (fun b hbm => (dec8_ok ⟨b, hb b hbm⟩).1)
 
-theorem hex16L_not_empty (g : Nat) (hg : g < 65536) : (hex16L g).isEmpty = false := by
-  have := (hex16L_clean g hg).2
-  cases h : hex16L g <;> simp_all
+theorem hex16L_not_empty (g : Nat) (hg : g < 65536) : hex16L g ≠ [] := (hex16L_clean g hg).2
+
+/-! ## IPv6: where the `::` is -/
+
+/-- no `::` inside and no `:` at the end -/
+def clean : List Char → Bool
+  | [] => true
+  | [c] => c != ':'
+  | c :: d :: r => !(c == ':' && d == ':') && clean (d :: r)
+
+theorem findDouble_step (acc : List Char) (c : Char) (l : List Char) (h : c ≠ ':' ∨ l.head? ≠ some ':') :
+    findDouble acc (c :: l) = findDouble (c :: acc) l := by
+  rw [findDouble.eq_def]
+  split
+  · rename_i heq; simp at heq; obtain ⟨rfl, rfl⟩ := heq; simp at h
+  · rename_i heq; simp at heq; obtain ⟨rfl, rfl⟩ := heq; rfl
+  · rename_i heq; simp at heq
+
+theorem findDouble_clean : ∀ (t rest acc : List Char), clean t = true →
+    findDouble acc (t ++ ':' :: ':' :: rest) = some (acc.reverse ++ t, rest) := by
+  intro t
+  induction t with
+  | nil => intro rest acc _; simp [findDouble]
+  | cons c t ih =>
+    intro rest acc h
+    cases t with
+    | nil =>
+      simp [clean] at h
+      rw [List.cons_append, findDouble_step _ _ _ (Or.inl h)]
+      simp [findDouble]
+    | cons d r =>
+      simp only [clean, Bool.and_eq_true, Bool.not_eq_true'] at h
+      have hcd : c ≠ ':' ∨ (d :: r ++ ':' :: ':' :: rest).head? ≠ some ':' := by
+        by_cases hc : c = ':'
+        · right; simp; intro hd; simp [hc, hd] at h
+        · left; exact hc
+      rw [List.cons_append, findDouble_step _ _ _ hcd, ih rest (c :: acc) h.2]
+      simp
+
+theorem findDouble_none_of_clean : ∀ (t acc : List Char), clean t = true → findDouble acc t = none := by
+  intro t
+  induction t with
+  | nil => intro acc _; simp [findDouble]
+  | cons c t ih =>
+    intro acc h
+    cases t with
+    | nil => simp [clean] at h; rw [findDouble_step _ _ _ (Or.inl h)]; simp [findDouble]
+    | cons d r =>
+      simp only [clean, Bool.and_eq_true, Bool.not_eq_true'] at h
+      have hcd : c ≠ ':' ∨ (d :: r).head? ≠ some ':' := by
+        by_cases hc : c = ':'
+        · right; simp; intro hd; simp [hc, hd] at h
+        · left; exact hc
+      rw [findDouble_step _ _ _ hcd, ih (c :: acc) h.2]
+
+theorem clean_nocolon : ∀ (g : List Char), ':' ∉ g → clean g = true := by
+  intro g
+  induction g with
+  | nil => intro _; rfl
+  | cons c t ih =>
+    intro h
+    have hc : c ≠ ':' := fun e => h (by simp [e])
+    have ht : ':' ∉ t := fun e => h (by simp [e])
+    cases t with
+    | nil => simp [clean, hc]
+    | cons d r => simp [clean, hc, ih ht]
+
+theorem clean_append : ∀ (g t : List Char), ':' ∉ g → g ≠ [] → clean t = true → t ≠ [] → t.head? ≠ some ':' →
+    clean (g ++ ':' :: t) = true := by
+  intro g
+  induction g with
+  | nil => intro t _ hne; exact absurd rfl hne
+  | cons c g ih =>
+    intro t h _ ht htne hth
+    have hc : c ≠ ':' := fun e => h (by simp [e])
+    have hg : ':' ∉ g := fun e => h (by simp [e])
+    cases g with
+    | nil =>
+      cases t with
+      | nil => exact absurd rfl htne
+      | cons d r =>
+        have hd : d ≠ ':' := by simpa using hth
+        simp [clean, hc, hd, ht]
+    | cons d r =>
+      have := ih t hg (by simp) ht htne hth
+      rw [List.cons_append] at this
+      simp [clean, hc, this]
+
+/-- groups that are not empty and contain no colon -/
+def Plain (gs : List (List Char)) : Prop := ∀ g ∈ gs, ':' ∉ g ∧ g ≠ []
+
+theorem join_head (gs : List (List Char)) (h : Plain gs) (hne : gs ≠ []) :
+    joinSep ':' gs ≠ [] ∧ (joinSep ':' gs).head? ≠ some ':' := by
+  cases gs with
+  | nil => exact absurd rfl hne
+  | cons g rest =>
+    obtain ⟨hg, hgne⟩ := h g (by simp)
+    cases g with
+    | nil => exact absurd rfl hgne
+    | cons c cs =>
+      have hc : c ≠ ':' := fun e => hg (by simp [e])
+      cases rest <;> simp [joinSep, hc]
+
+theorem clean_join : ∀ (gs : List (List Char)), Plain gs → clean (joinSep ':' gs) = true := by
+  intro gs
+  induction gs with
+  | nil => intro _; rfl
+  | cons g rest ih =>
+    intro h
+    have hrest : Plain rest := fun x hx => h x (by simp [hx])
+    cases rest with
+    | nil => simpa [joinSep] using clean_nocolon g (h g (by simp)).1
+    | cons g2 r2 =>
+      have hj := join_head (g2 :: r2) hrest (by simp)
+      simp only [joinSep]
+      exact clean_append g _ (h g (by simp)).1 (h g (by simp)).2 (ih hrest) hj.1 hj.2
+
+/-- the groups of a joined text are the groups that were joined -/
+theorem groups_join (gs : List (List Char)) (h : Plain gs) : v6GroupsOf (joinSep ':' gs) = parseAll 16 65535 gs := by
+  cases gs with
+  | nil => simp [v6GroupsOf, joinSep, parseAll]
+  | cons g rest =>
+    have hj := join_head (g :: rest) h (by simp)
+    have he : (joinSep ':' (g :: rest)).isEmpty = false := by
+      cases hjj : joinSep ':' (g :: rest) with
+      | nil => exact absurd hjj hj.1
+      | cons _ _ => rfl
+    simp only [v6GroupsOf, he]
+    rw [splitOn_join ':' (g :: rest) (by simp) (fun x hx => (h x hx).1)]
+    simp
+
+theorem parseAll_length (radix max : Nat) : ∀ (parts : List (List Char)) (vs : List Nat),
+    parseAll radix max parts = some vs → vs.length = parts.length := by
+  intro parts
+  induction parts with
+  | nil => intro vs h; simp [parseAll] at h; subst h; rfl
+  | cons p ps ih =>
+    intro vs h
+    simp only [parseAll] at h
+    cases hp : parseUnsigned radix max p with
+    | none => simp [hp] at h
+    | some v =>
+      simp only [hp, Option.map_eq_some_iff] at h
+      obtain ⟨ws, hws, rfl⟩ := h
+      simp [ih ws hws]
+
+/-! ## IPv6: standard forms -/
+
+/-- **RFC 4291 §2.2 form 2, every position of the `::`**: `pre` groups, `::`, `post` groups — at most seven in all; `pre`
+empty is a leading `::`, `post` empty a trailing one, both empty the text `::` — parse to the groups' values with zero
+groups in between.  The group texts are any texts the group parser accepts: one to four hexadecimal digits of either
+case in particular. -/
+theorem v6_accepts_all (pre post : List (List Char)) (pv qv : List Nat) (hpre : Plain pre) (hpost : Plain post)
+    (hp : parseAll 16 65535 pre = some pv) (hq : parseAll 16 65535 post = some qv) (hlen : pre.length + post.length ≤ 7) :
+    parseV6 (joinSep ':' pre ++ ':' :: ':' :: joinSep ':' post) =
+      some (pv ++ List.replicate (8 - pv.length - qv.length) 0 ++ qv) := by
+  have hl1 := parseAll_length 16 65535 pre pv hp
+  have hl2 := parseAll_length 16 65535 post qv hq
+  simp only [parseV6]
+  rw [findDouble_clean _ _ [] (clean_join pre hpre)]
+  simp only [List.reverse_nil, List.nil_append, groups_join pre hpre, groups_join post hpost, hp, hq]
+  have : ¬ (pv.length + qv.length > 7) := by omega
+  simp [this]
+
+/-- `::1`, `1::`, `::`, `fe80::1:2`, `A::b:00c` -/
+example : parseV6 "::1".toList = some [0, 0, 0, 0, 0, 0, 0, 1] ∧ parseV6 "1::".toList = some [1, 0, 0, 0, 0, 0, 0, 0] ∧
+    parseV6 "::".toList = some [0, 0, 0, 0, 0, 0, 0, 0] ∧ parseV6 "fe80::1:2".toList = some [0xfe80, 0, 0, 0, 0, 0, 1, 2] ∧
+    parseV6 "A::b:00c".toList = some [10, 0, 0, 0, 0, 0, 11, 12] := by decide
+
+/-- the leading `::` as an instance of the theorem -/
+example : parseV6 (joinSep ':' [] ++ ':' :: ':' :: joinSep ':' [['1']]) = some ([] ++ List.replicate (8 - 0 - 1) 0 ++ [1]) :=
+  v6_accepts_all [] [['1']] [] [1] (by intro g hg; cases hg) (by intro g hg; simp at hg; subst hg; decide) rfl (by decide) (by decide)
 
 /-- **IPv6 round trip**: the eight-group text `Display` prints parses back to the same address -/
-theorem v6_roundtrip (a0 a1 a2 a3 a4 a5 a6 a7 : Nat) (h0 : a0 < 65536) (h1 : a1 < 65536) (h2 : a2 < 65536) (h3 : a3 < 65536)
-    (h4 : a4 < 65536) (h5 : a5 < 65536) (h6 : a6 < 65536) (h7 : a7 < 65536) :
-    parseV6 (showV6 [a0, a1, a2, a3, a4, a5, a6, a7]) = some [a0, a1, a2, a3, a4, a5, a6, a7] := by
-  have hsplit : splitOn ':' (joinSep ':' ([a0, a1, a2, a3, a4, a5, a6, a7].map hex16L)) = [a0, a1, a2, a3, a4, a5, a6, a7].map hex16L := by
-    apply splitOn_join
-    · simp
-    · intro g hg
-      simp only [List.map_cons, List.map_nil, List.mem_cons, List.mem_nil_iff, or_false] at hg
-      rcases hg with rfl | rfl | rfl | rfl | rfl | rfl | rfl | rfl <;> exact (hex16L_clean _ (by assumption)).1
-  simp only [parseV6, showV6, hsplit]
-  simp [v6Loop, hex16L_not_empty, hex16L_parses, *]
+theorem v6_roundtrip (a : List Nat) (hlen : a.length = 8) (hg : ∀ g ∈ a, g < 65536) : parseV6 (showV6 a) = some a := by
+  have hplain : Plain (a.map hex16L) := by
+    intro t ht
+    obtain ⟨g, hgm, rfl⟩ := List.mem_map.mp ht
+    exact hex16L_clean g (hg g hgm)
+  have hall : parseAll 16 65535 (a.map hex16L) = some a :=
+    parseAll_map 16 65535 hex16L a (fun g hgm => hex16L_parses g (hg g hgm))
+  simp only [parseV6, showV6]
+  rw [findDouble_none_of_clean _ [] (clean_join _ hplain), groups_join _ hplain, hall]
+  simp [hlen]
+
+example : parseV6 (showV6 [0xfe80, 0, 0, 0, 0x1, 0xabcd, 0xffff, 0x10]) = some [0xfe80, 0, 0, 0, 0x1, 0xabcd, 0xffff, 0x10] :=
+  v6_roundtrip _ rfl (by decide)
 
 /-! ## rejection -/
 
@@ -166,9 +341,6 @@ theorem mac_rejects_bad_count (s : List Char) (h : (splitOn ':' s).length ≠ 6)
 
 theorem v4_rejects_bad_count (s : List Char) (h : (splitOn '.' s).length ≠ 4) : parseV4 s = none := by
   simp [parseV4, h]
-
-theorem v6_rejects_too_many (s : List Char) (h : (splitOn ':' s).length > 8) : parseV6 s = none := by
-  simp [parseV6, h]
 
 theorem parseAll_none_of_mem (radix max : Nat) (parts : List (List Char)) (p : List Char) (hp : p ∈ parts)
     (hbad : parseUnsigned radix max p = none) : parseAll radix max parts = none := by
@@ -205,91 +377,54 @@ theorem v4_rejects_bad_group (s p : List Char) (hp : p ∈ splitOn '.' s) (hbad 
   · rfl
   · exact parseAll_none_of_mem 10 255 _ p hp hbad
 
-/-- without an empty segment the loop never sets `compressed` and counts one part per segment -/
-theorem v6Loop_plain : ∀ (segs : List (List Char)) (i : Nat) (st st' : V6St),
-    (∀ seg ∈ segs, seg.isEmpty = false) → st.compressed = false → v6Loop segs i st = some st' →
-    st'.compressed = false ∧ st'.partIndex = st.partIndex + segs.length := by
-  intro segs
-  induction segs with
-  | nil => intro i st st' _ hc h; simp [v6Loop] at h; subst h; exact ⟨hc, rfl⟩
-  | cons seg rest ih =>
-    intro i st st' hne hc h
-    have hs := hne seg (by simp)
-    rw [v6Loop] at h
-    simp only [hs, Bool.false_eq_true, if_false] at h
-    by_cases h8 : st.partIndex ≥ 8
-    · simp [h8] at h
-    · simp only [h8, if_false] at h
-      cases hp : parseUnsigned 16 65535 seg with
-      | none => simp [hp] at h
-      | some v =>
-        simp only [hp] at h
-        have := ih _ _ _ (fun x hx => hne x (by simp [hx])) (by exact hc) h
-        exact ⟨this.1, by rw [this.2]; simp; omega⟩
-
-/-- IPv6 without `::` (no empty segment): anything but eight groups is refused -/
-theorem v6_rejects_bad_count_plain (s : List Char) (hne : ∀ seg ∈ splitOn ':' s, seg.isEmpty = false)
+/-- IPv6 without `::`: anything but eight groups is refused (seven groups behind or before a lone colon and the empty
+text included) -/
+theorem v6_rejects_bad_count_plain (s : List Char) (hno : findDouble [] s = none)
     (hcount : (splitOn ':' s).length ≠ 8) : parseV6 s = none := by
-  simp only [parseV6]
-  split
-  · rfl
-  · split
-    · rfl
-    · rename_i st hst
-      have := v6Loop_plain _ 0 {} st hne rfl hst
-      simp [this.1]
-      intro h8
-      have := this.2
-      simp at this
-      omega
+  simp only [parseV6, hno]
+  cases hg : v6GroupsOf s with
+  | none => rfl
+  | some front =>
+    have hl : front.length ≠ 8 := by
+      simp only [v6GroupsOf] at hg
+      split at hg
+      · cases hg; simp
+      · have := parseAll_length 16 65535 _ front hg; omega
+    simp [hl]
 
-/-- a segment that is not a 16-bit hexadecimal number is refused wherever it stands -/
-theorem v6Loop_bad_group : ∀ (segs : List (List Char)) (i : Nat) (st : V6St) (p : List Char),
-    p ∈ segs → p.isEmpty = false → parseUnsigned 16 65535 p = none → v6Loop segs i st = none := by
-  intro segs
-  induction segs with
-  | nil => intro i st p hp; cases hp
-  | cons seg rest ih =>
-    intro i st p hp hne hbad
-    simp only [v6Loop]
-    cases hp with
-    | head => simp [hne, hbad]
-    | tail _ hmem =>
-      split
-      · split
-        · rfl
-        · exact ih _ _ p hmem hne hbad
-      · split
-        · rfl
-        · split
-          · exact ih _ _ p hmem hne hbad
-          · rfl
+/-- IPv6 with `::`: the `::` replaces at least one group, so more than seven groups around it are refused -/
+theorem v6_rejects_too_many (s head tail : List Char) (front back : List Nat) (hf : findDouble [] s = some (head, tail))
+    (h1 : v6GroupsOf head = some front) (h2 : v6GroupsOf tail = some back) (hmany : front.length + back.length > 7) :
+    parseV6 s = none := by
+  simp [parseV6, hf, h1, h2, hmany]
 
-theorem v6_rejects_bad_group (s p : List Char) (hp : p ∈ splitOn ':' s) (hne : p.isEmpty = false)
+theorem v6GroupsOf_bad_group (t p : List Char) (hne : t ≠ []) (hp : p ∈ splitOn ':' t)
+    (hbad : parseUnsigned 16 65535 p = none) : v6GroupsOf t = none := by
+  have : t.isEmpty = false := by cases t <;> simp_all
+  simp only [v6GroupsOf, this]
+  exact parseAll_none_of_mem 16 65535 _ p hp hbad
+
+/-- IPv6 without `::`: a group that is not a 16-bit hexadecimal number — the empty group a lone colon at an end leaves
+included — makes the text invalid -/
+theorem v6_rejects_bad_group (s p : List Char) (hno : findDouble [] s = none) (hp : p ∈ splitOn ':' s)
     (hbad : parseUnsigned 16 65535 p = none) : parseV6 s = none := by
-  simp only [parseV6]
-  split
-  · rfl
-  · rw [v6Loop_bad_group _ 0 {} p hp hne hbad]
+  by_cases hs : s = []
+  · subst hs; simp [parseV6, findDouble, v6GroupsOf]
+  · simp [parseV6, hno, v6GroupsOf_bad_group s p hs hp hbad]
 
-/-! ## the standard forms refused today, and the malformed ones accepted -/
+/-- IPv6 with `::`: the same on either side of it (a second `::` leaves an empty group) -/
+theorem v6_rejects_bad_group_compressed (s head tail p : List Char) (hf : findDouble [] s = some (head, tail))
+    (hp : (head ≠ [] ∧ p ∈ splitOn ':' head) ∨ (tail ≠ [] ∧ p ∈ splitOn ':' tail))
+    (hbad : parseUnsigned 16 65535 p = none) : parseV6 s = none := by
+  simp only [parseV6, hf]
+  rcases hp with ⟨hne, hm⟩ | ⟨hne, hm⟩
+  · simp [v6GroupsOf_bad_group head p hne hm hbad]
+  · rw [v6GroupsOf_bad_group tail p hne hm hbad]
+    cases v6GroupsOf head <;> rfl
 
-/-- `::1` — the loopback address — is refused: the split yields two empty segments -/
-theorem v6_leading_compression_rejected_witness :
-    parseV6 [':', ':', '1'] = none ∧ Rfc.parseV6 [':', ':', '1'] = .std [0, 0, 0, 0, 0, 0, 0, 1] := by decide
+/-- seven groups behind a lone colon, seven before one, the empty text, two `::`, `:::`, a 17-bit group, nine groups -/
+example : parseV6 ":1:2:3:4:5:6:7".toList = none ∧ parseV6 "1:2:3:4:5:6:7:".toList = none ∧ parseV6 [] = none ∧
+    parseV6 "1::2::3".toList = none ∧ parseV6 ":::".toList = none ∧ parseV6 "10000::".toList = none ∧
+    parseV6 "1:2:3:4:5:6:7:8:9".toList = none ∧ parseV6 "1:2:3:4::5:6:7:8".toList = none := by decide
 
-/-- `1::` is refused too, and so is `::` -/
-theorem v6_trailing_compression_rejected_witness :
-    parseV6 ['1', ':', ':'] = none ∧ Rfc.parseV6 ['1', ':', ':'] = .std [1, 0, 0, 0, 0, 0, 0, 0] ∧
-    parseV6 [':', ':'] = none ∧ Rfc.parseV6 [':', ':'] = .std [0, 0, 0, 0, 0, 0, 0, 0] := by decide
-
-/-- `1::2` (compression in the middle) is accepted with the right value -/
-theorem v6_middle_compression_example :
-    parseV6 ['1', ':', ':', '2'] = some [1, 0, 0, 0, 0, 0, 0, 2] ∧ Rfc.parseV6 ['1', ':', ':', '2'] = .std [1, 0, 0, 0, 0, 0, 0, 2] := by decide
-
-/-- seven groups behind a single colon, and the empty text, are accepted although they have the wrong number of groups -/
-theorem v6_wrong_count_accepted_witness :
-    parseV6 [':', '1', ':', '2', ':', '3', ':', '4', ':', '5', ':', '6', ':', '7'] = some [0, 1, 2, 3, 4, 5, 6, 7] ∧
-    Rfc.parseV6 [':', '1', ':', '2', ':', '3', ':', '4', ':', '5', ':', '6', ':', '7'] = .bad ∧
-    parseV6 [] = some [0, 0, 0, 0, 0, 0, 0, 0] ∧ Rfc.parseV6 [] = .bad := by decide
 end P2sh.Props.C18
